@@ -428,35 +428,42 @@ mutual
         | .error o => .error o
         | .ok (vs, s2) => .ok (v :: vs, s2)
 
-  /-- names visited by `repeat in …`, in visiting order -/
+  /-- names visited by `repeat in … and …`, in visiting order: those of the first source first.
+  The sources themselves are EVALUATED from the last to the first (the generated code pushes the
+  names to visit last first, so that the first is on top), each member of a group or location
+  once, in name order; a source that is a group, a location or `all` leaves its kind in the
+  `operand` register (the discovery instructions are told what to walk through that register) -/
   def iterNames : Nat → List IterItem → S → Except Outcome (List String × S)
     | 0, _, _ => .error .outOfFuel
     | _ + 1, [], s => .ok ([], s)
     | f + 1, item :: rest, s =>
-      let one : Except Outcome (List String × S) :=
-        match item with
-        | .all => .ok (s.vm.lightNames, s)
-        | .light n =>
-          match evalRv f n s with
-          | .ok (.str x, s1) => .ok ([x], s1)
-          | .ok (_, _) => .error (.fault "light name is not a string")
-          | .error o => .error o
-        | .group n =>
-          match evalRv f n s with
-          | .ok (.str g, s1) => .ok ((s1.vm.groupLights g).getD [], s1)
-          | .ok (_, _) => .error (.fault "group name is not a string")
-          | .error o => .error o
-        | .location n =>
-          match evalRv f n s with
-          | .ok (.str g, s1) => .ok ((s1.vm.locationLights g).getD [], s1)
-          | .ok (_, _) => .error (.fault "location name is not a string")
-          | .error o => .error o
-      match one with
+      match iterNames f rest s with
       | .error o => .error o
-      | .ok (xs, s1) =>
-        match iterNames f rest s1 with
+      | .ok (ys, s1) =>
+        let one : Except Outcome (List String × S) :=
+          match item with
+          | .all => .ok (s1.vm.lightNames, s1.setReg .operand (.operand .light))
+          | .light n =>
+            match evalRv f n s1 with
+            | .ok (.str x, s2) => .ok ([x], s2)
+            | .ok (_, _) => .error (.fault "light name is not a string")
+            | .error o => .error o
+          | .group n =>
+            match evalRv f n s1 with
+            | .ok (.str g, s2) =>
+              .ok (Vm.dedupSorted ((s2.vm.groupLights g).getD []), s2.setReg .operand (.operand .group))
+            | .ok (_, _) => .error (.fault "group name is not a string")
+            | .error o => .error o
+          | .location n =>
+            match evalRv f n s1 with
+            | .ok (.str g, s2) =>
+              .ok (Vm.dedupSorted ((s2.vm.locationLights g).getD []),
+                s2.setReg .operand (.operand .location))
+            | .ok (_, _) => .error (.fault "location name is not a string")
+            | .error o => .error o
+        match one with
         | .error o => .error o
-        | .ok (ys, s2) => .ok (xs ++ ys, s2)
+        | .ok (xs, s2) => .ok (xs ++ ys, s2)
 
   /-- the `with` clause of a loop whose number of passes is the count `cnt`: the operands are
   evaluated (once, whatever the count), the index variable is given its first value, and the
@@ -531,9 +538,11 @@ mutual
             | .error o => (o, s1)
             | .ok (none, s2) => (.fault "arithmetic error", s2)
             | .ok (some i, s2) => execPasses f (List.replicate (passCount q) []) (some (v, i)) body s2
-      | .all lv w => iterLoop f s.vm.lightNames lv w body s
-      | .groups lv w => iterLoop f s.vm.groupNames lv w body s
-      | .locations lv w => iterLoop f s.vm.locationNames lv w body s
+      -- the discovery instructions are told what to walk through the `operand` register
+      | .all lv w => iterLoop f s.vm.lightNames lv w body (s.setReg .operand (.operand .light))
+      | .groups lv w => iterLoop f s.vm.groupNames lv w body (s.setReg .operand (.operand .group))
+      | .locations lv w =>
+        iterLoop f s.vm.locationNames lv w body (s.setReg .operand (.operand .location))
       | .iter items lv w =>
         match iterNames f items s with
         | .error o => (o, s)
